@@ -79,7 +79,10 @@ def run_batch(args):
         for fid, _v in s['known']:
             agg['known'][fid] = agg['known'].get(fid, 0) + 1
         if run < 3:
-            agg['samples'].append(profile.sample(case))
+            try:
+                agg['samples'].append(profile.sample(case))
+            except Exception:
+                return {'harness_error': 'sample() of run %d:\n%s' % (run, traceback.format_exc()), 'start': start}
         if run < 200:
             agg['digests'].append((run, s['digest']))
         if s['violations']:
